@@ -56,4 +56,28 @@ SeaBlockEnd(E, thc, emin, emax) ==
    IF Len(inr) > 0 /\ inr[1][1] < b0 THEN inr[1][1] ELSE b0
 SeaNeverCuts(E, thg, thc, emin, emax) ==
    LET rg == DegenRG(E, thg) e == SeaBlockEnd(E, thc, emin, emax) IN \A j \in 1..Len(rg) : ~(rg[j][1] < e /\ e < rg[j][2])
+-----------------------------------------------------------------------------
+(* grid/tetrahedron.py: TetraWeights.weights_all_band_groups, Fermi-sea branch (der = 0): the band blocks over which a
+   tetrahedron calculator traces its formula at one k-point of the grid.
+     E   centre energies (sorted), Elo / Ehi  per band the minimum / maximum over the centre and the corners of the k-cell
+     th  threshold of the calculator (groups are decided at the cell CENTRE), ef0 <= ef1 lowest / highest Fermi level.
+   All energies in half units (centre energies even, Fermi levels and thresholds odd): no comparison is ever a tie.
+     bands_in_range = get_bands_in_range(eFermi[0], eFermi[-1], eCenter, Ebandmin = Emin, Ebandmax = Emax): whole groups
+     bandmax        = get_bands_below_range(eFermi[0], eCenter, Ebandmax = Emax): per BAND (last band whose corner maximum
+                      is below the lowest Fermi level), then clipped to the beginning of the first group in range
+     (Emin = -inf: bandmin = 0).  Variant clip = FALSE: the clip is missing (must-fail: the fully occupied block may end
+   inside a degenerate group whose degeneracy is lifted in the corners). *)
+SeqMaxOn(s, g) == LET S == {s[n + 1] : n \in g[1]..(g[2] - 1)} IN CHOOSE x \in S : \A y \in S : y <= x
+SeqMinOn(s, g) == LET S == {s[n + 1] : n \in g[1]..(g[2] - 1)} IN CHOOSE x \in S : \A y \in S : x <= y
+TetraInRange(E, Elo, Ehi, th, ef0, ef1) ==
+   SelectSeq(Borders(E, th, FALSE), LAMBDA g : SeqMaxOn(Ehi, g) >= ef0 /\ SeqMinOn(Elo, g) <= ef1)
+TetraBandsBelow(Ehi, e) == LET S == {n \in 1..Len(Ehi) : Ehi[n] < e} IN IF S = {} THEN 0 ELSE CHOOSE n \in S : \A m \in S : m <= n
+TetraTraced(E, Elo, Ehi, th, ef0, ef1, clip) ==
+   LET inr == TetraInRange(E, Elo, Ehi, th, ef0, ef1)
+       b0 == TetraBandsBelow(Ehi, ef0)
+       bmax == IF clip /\ Len(inr) > 0 /\ inr[1][1] < b0 THEN inr[1][1] ELSE b0
+   IN IF bmax > 0 THEN inr \o << <<0, bmax>> >> ELSE inr
+(* C04: a traced block must be a union of whole blocks of the random gauge (it may not cut one) *)
+Cuts(t, g) == (\E n \in g[1]..(g[2] - 1) : InBlock(t, n)) /\ (\E n \in g[1]..(g[2] - 1) : ~InBlock(t, n))
+UnionsOfMultiplets(traced, rg) == \A a \in 1..Len(traced) : \A b \in 1..Len(rg) : ~Cuts(traced[a], rg[b])
 =============================================================================
